@@ -1,6 +1,7 @@
 package h
 
 import (
+	"fmt"
 	"errors"
 	"io"
 	"net/http"
@@ -193,7 +194,7 @@ func c11Catalogue() []c11case {
 }
 
 func C11_Jobs() []string {
-	out := []string{"catalogue/en", "catalogue/es", "catalogue/default", "precedence", "i18n", "value-ref", "multi-param", "decode-twice", "global-roots", "exec-roots", "i18n-reinstall"}
+	out := []string{"catalogue/en", "catalogue/es", "catalogue/default", "precedence", "i18n", "value-ref", "multi-param", "decode-twice", "global-roots", "exec-roots", "i18n-reinstall", "i18n-names", "param-rendering"}
 	return out
 }
 func C11_Covers() []string { return []string{"catalogue-case", "precedence-case"} }
@@ -424,6 +425,57 @@ func C11_Run(job string) {
 		conf.IssueFormatter = old
 		v.Assert(len(msgs) == 1, "C11:expected-exactly-one-issue")
 		v.Assert(len(msgs) == 1 && len(msgs[0]) >= 2 && msgs[0][:2] == "F:", "C11:message-precedence")
+		v.Cover("precedence-case")
+	case "i18n-names":
+		// the language of an execution is looked up by its exact name: regional names are names
+		old := conf.IssueFormatter
+		i18n.SetLanguagesErrsMap(map[string]zconst.LangMap{"en": en.Map, "es-419": es.Map, "es_MX": es.Map, "e": es.Map}, "en")
+		wantEn := strings.ReplaceAll(en.Map["string"]["min"], "{{min}}", "5")
+		wantEs := strings.ReplaceAll(es.Map["string"]["min"], "{{min}}", "5")
+		lang := []string{"es-419", "es_MX", "e", "es", "es-AR", "en-US", "en", "-", ""}[v.Choice("lang", 9)]
+		var d string
+		errs := z.String().Min(5).Parse("ab", &d, z.WithCtxValue("lang", lang))
+		conf.IssueFormatter = old
+		v.Assert(len(errs) == 1, "C11:expected-exactly-one-issue")
+		want := wantEn
+		if lang == "es-419" || lang == "es_MX" || lang == "e" {
+			want = wantEs
+		}
+		v.Assert(errs[0].Message == want, "C11:language-selection")
+		v.Cover("precedence-case")
+	case "param-rendering":
+		// the message states the parameter the issue carries: the placeholder is replaced by the
+		// %v rendering of that very value (float32 bounds that are not exact in binary, large ints,
+		// negative zero, times)
+		type pc struct {
+			run   func() z.ZogIssueList
+			dtype zconst.ZogType
+			code  string
+			key   string
+		}
+		var f32 float32
+		var f64 float64
+		var n int
+		cases := []pc{
+			{func() z.ZogIssueList { f32 = 0; return z.Float32().GT(0.1).Parse(0.05, &f32) }, "number", "gt", "gt"},
+			{func() z.ZogIssueList { f32 = 0; return z.Float32().LTE(2.7).Parse(99, &f32) }, "number", "lte", "lte"},
+			{func() z.ZogIssueList { f32 = 1; return z.Float32().EQ(99.99).Validate(&f32) }, "number", "eq", "eq"},
+			{func() z.ZogIssueList { return z.Float64().GT(0.1).Parse(0.05, &f64) }, "number", "gt", "gt"},
+			{func() z.ZogIssueList { return z.Float64().LT(1e-7).Parse(5, &f64) }, "number", "lt", "lt"},
+			{func() z.ZogIssueList { return z.Float64().GTE(1e21).Parse(5, &f64) }, "number", "gte", "gte"},
+			{func() z.ZogIssueList { return z.Int().GT(1<<53+1).Parse(5, &n) }, "number", "gt", "gt"},
+			{func() z.ZogIssueList { return z.Int().LT(-9223372036854775807).Parse(5, &n) }, "number", "lt", "lt"},
+		}
+		c := cases[v.Choice("case", len(cases))]
+		lm := map[string]zconst.LangMap{"en": en.Map, "es": es.Map}
+		lang := []string{"en", "es"}[v.Choice("lang", 2)]
+		old := conf.IssueFormatter
+		conf.IssueFormatter = conf.NewDefaultFormatter(lm[lang])
+		errs := c.run()
+		conf.IssueFormatter = old
+		v.Assert(len(errs) == 1 && errs[0].Code == c.code, "C11:expected-exactly-one-issue")
+		want := strings.ReplaceAll(lm[lang][c.dtype][c.code], "{{"+c.key+"}}", fmt.Sprintf("%v", errs[0].Params[c.key]))
+		v.Assert(errs[0].Message == want, "C11:unresolved-placeholder")
 		v.Cover("precedence-case")
 	case "i18n-reinstall":
 		// every installation of i18n stands alone: the language key option of an earlier
